@@ -140,7 +140,8 @@ class C09(scen.WorldProp):
             sc = {"start": 1000.0, "end": end, "tower_size": N0, "events": events,
                   "on_join": scen.humans_on_join(join_humans),
                   "bot": scen.bot_cfg(spec, up_down_in=udi),
-                  "rhythm": scen.rhythm_cfg("wait", inertia=rng.choice([0.0, 0.5, 1.0]), peal_speed=ps)}
+                  "rhythm": scen.rhythm_cfg("wait", inertia=rng.choice([0.0, 0.5, 1.0]), peal_speed=ps,
+                                            max_bells=rng.choice([15, 15, 15, 30, 5, 3, 2]))}
             yield {"k": "world", "scenario": sc, "humans": humans, "style": style, "seed": rng.getrandbits(32),
                    "lead": lead}
 
